@@ -71,7 +71,6 @@ def m_set_folder_flags(engine, ctx, args, callee, frame):
 @model(r"^<(S|SyncImpl<T>) as (sos_sync::)?(Merge|ForceMerge)>::(\w+)(::<.*>)?$")
 def m_merge_dispatch(engine, ctx, args, callee, frame):
     m = _re.match(r"^<(?:S|SyncImpl<T>) as (?:sos_sync::)?(Merge|ForceMerge)>::(\w+)", callee)
-    from .c11_devices import find_impl
     name, fn = find_impl(engine.program, m.group(1), m.group(2))
     if fn is None:
         pf = engine.program.resolve(name, None)
@@ -126,6 +125,15 @@ def m_add_tracked(engine, ctx, args, callee, frame):
 @model(r"^<E as (std::convert::|core::convert::)?From<.*>>::from$")
 def m_e_from(engine, ctx, args, callee, frame):
     return Opaque("E", ("from", callee))
+
+
+def find_impl(prog, trait, method):
+    """the impl's own method if SyncImpl<T> overrides it, else the trait's provided method (kept local: importing
+    c11_devices would register that module's event-log stubs in front of the real event log used here)"""
+    for key, fn in prog.fns.items():
+        if prog.pretty(fn.name) == "<SyncImpl as %s>::%s" % (trait, method) and "{closure" not in fn.name:
+            return fn.name, fn
+    return "%s::%s" % (trait, method), None
 
 
 def scenarios(tier):
@@ -200,7 +208,6 @@ def run_scenario(prog, sc):
         req = Agg("struct", "PatchRequest", [Cell(lt), Cell(commit), Cell(proof), Cell(O.vec(new))])
         me = Cell(Agg("struct", "SyncImpl", [Cell(Opaque("T"))]))
         if sc.get("force"):
-            from .c11_devices import find_impl
             _, fn = find_impl(eng.program, "ForceMerge", "force_merge_folder")
             if fn is None:
                 raise Untranslatable("no MIR for <SyncImpl as ForceMerge>::force_merge_folder")
@@ -209,7 +216,6 @@ def run_scenario(prog, sc):
             outcome = Cell(M.default_value(eng, ctx, "MergeOutcome", None))
             fut = eng.run_fn(fn, [Ref(me), Ref(Cell(folder_id())), diff, Ref(outcome)], {"T": "T"})
         elif sc.get("identity"):
-            from .c11_devices import find_impl
             _, fn = find_impl(eng.program, "Merge", "merge_identity")
             if fn is None:
                 raise Untranslatable("no MIR for <SyncImpl as Merge>::merge_identity")
@@ -218,7 +224,6 @@ def run_scenario(prog, sc):
             outcome = Cell(M.default_value(eng, ctx, "MergeOutcome", None))
             fut = eng.run_fn(fn, [Ref(me), diff, Ref(outcome)], {"T": "T"})
         elif sc.get("direct"):
-            from .c11_devices import find_impl
             _, fn = find_impl(eng.program, "Merge", "merge_folder")
             if fn is None:
                 raise Untranslatable("no MIR for <SyncImpl as Merge>::merge_folder")
